@@ -544,6 +544,47 @@ pub fn sites(tier: Tier) -> Vec<Site> {
             }
         }));
     }
+    // the file handed to from_file need not stand at its beginning: a PTH / SMX embedded behind 1, 7 or 64 other bytes,
+    // complete or cut short by 1..=80 bytes - from_file agrees with read on the same bytes
+    {
+        let small: Vec<usize> = files.iter().enumerate().filter(|(_, f)| f.bytes.len() <= 400).map(|(i, _)| i).collect();
+        let small = Arc::new(small);
+        let files = files.clone();
+        let n = small.len() as u64 * 3 * 81;
+        sites.push(Site::new("file-api-embedded", n,
+            "every generated file of at most 400 bytes x embedded behind {1, 7, 64} bytes x {complete, cut short by 1..=80 bytes}: from_file on a File positioned at the embedded file agrees with read on the same bytes (a strict prefix is refused)",
+            move |i, acc| {
+                let f = &files[small[(i / 243) as usize]];
+                let prefix = [1usize, 7, 64][((i / 81) % 3) as usize];
+                let cut = (i % 81) as usize;
+                if cut >= f.bytes.len() { return; }
+                acc.eval();
+                let content = &f.bytes[..f.bytes.len() - cut];
+                let dir = std::path::PathBuf::from("/verif/target/tmp");
+                let _ = std::fs::create_dir_all(&dir);
+                let path = dir.join(format!("c17e-{}-{i}.bin", std::process::id()));
+                { let mut h = std::fs::File::create(&path).unwrap(); h.write_all(&vec![0xa5u8; prefix]).unwrap(); h.write_all(content).unwrap(); }
+                let kind = if f.smx { "SMX" } else { "PTH" };
+                let replay = json!({"site": "file-api-embedded", "index": i, "file": f.name, "prefix": prefix, "cut": cut});
+                let r = guard(|| {
+                    use std::io::Seek;
+                    let mut h = std::fs::File::open(&path).map_err(|e| e.to_string())?;
+                    let _ = h.seek(std::io::SeekFrom::Start(prefix as u64)).map_err(|e| e.to_string())?;
+                    if f.smx {
+                        Ok::<_, String>((Smx::read(&mut Cursor::new(content)).map(|v| format!("{v:?}")).map_err(|_| ()), Smx::from_file(&mut h).map(|v| format!("{v:?}")).map_err(|_| ())))
+                    } else {
+                        Ok((Pth::read(&mut Cursor::new(content)).map(|v| format!("{v:?}")).map_err(|_| ()), Pth::from_file(&mut h).map(|v| format!("{v:?}")).map_err(|_| ())))
+                    }
+                });
+                let _ = std::fs::remove_file(&path);
+                match r {
+                    Err(p) => acc.violate(i, format!("C17|{kind}|panic|file-api"), p, replay),
+                    Ok(Err(e)) => { eprintln!("MACHINERY: temporary file: {e}"); std::process::exit(4); },
+                    Ok(Ok((a, b))) if a == b => { acc.class(if a.is_ok() { "embedded-agrees" } else { "embedded-prefix-refused" }); acc.nontrivial(); },
+                    Ok(Ok((a, b))) => acc.violate(i, format!("C17|{kind}|file-api-differs"), format!("{} behind {prefix} byte(s), cut short by {cut}: read gives {}, from_file on the positioned file gives {}", f.name, if a.is_ok() { "a structure" } else { "an error" }, if b.is_ok() { "a structure" } else { "an error" }), replay),
+                }
+            }));
+    }
     // missing file
     sites.push(Site::new("missing-file", 2, "from_pathbuf on a path that does not exist", |i, acc| {
         acc.eval();
